@@ -1108,6 +1108,8 @@ package client
 //@   safety C17
 //@   ghost srv string
 //@   requires connOK(conn) && conn.st != nil && line != nil && len(line.Args) >= 1 && srvNick(conn, srv)
+//@   requires [C13] stOK(conn)
+//@   ensures [C13] stOK(conn)
 //@   modifies $trk, $log
 //@   ensures line.Nick == srv && !trkHas(old($trk), sid(line.Args[0])) ==> srvNick(conn, line.Args[0])
 //@   ensures line.Nick != srv ==> srvNick(conn, srv)
@@ -1441,4 +1443,90 @@ package client
 //@   modifies $tr
 //@   ensures sendsOnly($tr, old($trlen), $trlen, conn.out, "AUTHENTICATE")
 //@   ensures [C19] $trlen == old($trlen) + 1 && sendsExactly($tr, old($trlen), conn.out, "AUTHENTICATE " + message)
+//@ end
+
+// ---------------------------------------------------------------------------
+// C13 (second sentence): under arbitrary lines the state handlers keep the
+// tracker's representation invariant (hence the client's own entry), keep the
+// client on every tracked channel and keep no nick that shares no channel.
+// Calls through the state.Tracker interface are verified against the proved
+// contracts of *stateTracker (C12): conn.st is only ever assigned the result
+// of state.NewTracker (closure below).
+//@ impl [C13] state.(Tracker) state.(*stateTracker)
+//@ closure [C13] field_write Conn.st in (*Conn).EnableStateTracking, (*Conn).DisableStateTracking, Client
+//@ pred stOK(conn *Conn) := conn != nil && conn.cfg != nil && conn.st != nil && trkOK(impl(conn.st, "state.stateTracker")) && Safe13(impl(conn.st, "state.stateTracker"))
+
+//@ func (*Conn).h_PART
+//@   property C13
+//@   requires stOK(conn) && line != nil && len(line.Args) >= 1
+//@   modifies heap, $held, $tr, $log
+//@   ensures [C13] stOK(conn)
+//@ end
+//@ func (*Conn).h_KICK
+//@   property C13
+//@   requires stOK(conn) && line != nil
+//@   modifies heap, $held, $tr, $log
+//@   ensures [C13] stOK(conn)
+//@ end
+//@ func (*Conn).h_QUIT
+//@   property C13
+//@   requires stOK(conn) && line != nil
+//@   modifies heap, $held, $tr, $log
+//@   ensures [C13] stOK(conn)
+//@ end
+//@ func (*Conn).h_TOPIC
+//@   property C13
+//@   requires stOK(conn) && line != nil
+//@   modifies heap, $held, $tr, $log
+//@   ensures [C13] stOK(conn)
+//@ end
+//@ func (*Conn).h_311
+//@   property C13
+//@   requires stOK(conn) && line != nil
+//@   modifies heap, $held, $tr, $log
+//@   ensures [C13] stOK(conn)
+//@ end
+//@ func (*Conn).h_324
+//@   property C13
+//@   requires stOK(conn) && line != nil
+//@   modifies heap, $held, $tr, $log
+//@   ensures [C13] stOK(conn)
+//@ end
+//@ func (*Conn).h_332
+//@   property C13
+//@   requires stOK(conn) && line != nil
+//@   modifies heap, $held, $tr, $log
+//@   ensures [C13] stOK(conn)
+//@ end
+//@ func (*Conn).h_671
+//@   property C13
+//@   requires stOK(conn) && line != nil
+//@   modifies heap, $held, $tr, $log
+//@   ensures [C13] stOK(conn)
+//@ end
+//@ func (*Conn).h_MODE
+//@   property C13
+//@   requires stOK(conn) && line != nil
+//@   modifies heap, $held, $tr, $log
+//@   ensures [C13] stOK(conn)
+//@ end
+//@ func (*Conn).h_352
+//@   property C13
+//@   requires stOK(conn) && line != nil
+//@   modifies heap, $held, $tr, $log
+//@   ensures [C13] stOK(conn)
+//@ end
+//@ func (*Conn).h_JOIN
+//@   property C13
+//@   requires stOK(conn) && line != nil && len(line.Args) >= 1
+//@   modifies heap, $held, $tr, $log
+//@   ensures [C13] stOK(conn)
+//@ end
+//@ func (*Conn).h_353
+//@   property C13
+//@   requires stOK(conn) && line != nil
+//@   modifies heap, $held, $tr, $log
+//@   ensures [C13] stOK(conn)
+//@   loop 0:
+//@     invariant [C13] stOK(conn) && ch != nil && has(impl(conn.st, "state.stateTracker").chans, ch.Name)
 //@ end
